@@ -33,7 +33,7 @@ def generate(rng, tier):
     out = []
     while len(out) < n:
         method = rng.choice(METHODS)
-        one = rng.random() < 0.12
+        one = rng.random() < 0.18
         nobs = rng.randint(2, 7)
         P = rng.randint(1, 4) if method != 'correlation' else rng.randint(3, 4)
         ncond = rng.randint(1, min(4, nobs))
@@ -51,6 +51,10 @@ def generate(rng, tier):
             folds = [rng.randrange(nf) for _ in range(nobs)]
         nan_kind = rng.choice(['none', 'none', 'channel', 'obs']) if not intd else 'none'
         noise = spd(rng, P) if (method in ('mahalanobis', 'crossnobis') and rng.random() < 0.7) else None
+        if one and method in ('mahalanobis', 'crossnobis') and not intd and rng.random() < 0.6:
+            # the single-pair helper without a precision and with missing channels (seeded change C15-m7)
+            noise = None
+            nan_kind = rng.choice(['channel', 'obs'])
         if noise is not None:
             nan_kind = 'none'            # mahalanobis with missing channels: undefined behaviour of the engine (known finding)
         nan = [[False] * P for _ in range(nobs)]
@@ -74,6 +78,12 @@ def generate(rng, tier):
                  nan=nan, nan_kind=nan_kind, folds=folds, noise=noise, weighting=rng.choice(['number', 'equal']), as_list=rng.random() < 0.3,
                  pl=rng.choice([1, 2]), pw=rng.choice([0.1, 0.25]), intdtype=intd, order=rng.choice(['C', 'F']),
                  labtype=rng.choice(['int', 'str']), foldtype=rng.choice(['int', 'half', 'str']))
+        if c['as_list'] and not one and rng.random() < 0.6:
+            # a second dataset with the same observations in another order (another order of first appearance of the conditions):
+            # its RDM, aligned to the returned labels, is the same (seeded change C15-m8)
+            perm = list(range(nobs))
+            rng.shuffle(perm)
+            c['perm2'] = perm
         if one:
             c['conds'] = [0] * (nobs // 2) + [1] * (nobs - nobs // 2)
             c['folds'] = [rng.randrange(3) for _ in range(nobs)]
@@ -120,7 +130,12 @@ def run(c):
     ds = rsatoolbox.data.Dataset(X, obs_descriptors=obs)
     before = np.array(ds.measurements, copy=True)
     # a list with one dataset must give the RDM of that dataset (every option passed on to the per-dataset call)
-    r = calc_rdm_unbalanced([ds] if c.get('as_list') else ds, method=c['method'], descriptor='cond', noise=noise,
+    arg = [ds] if c.get('as_list') else ds
+    if c.get('perm2'):
+        p2 = list(c['perm2'])
+        ds2 = rsatoolbox.data.Dataset(np.array(X)[p2], obs_descriptors={k: [v[i] for i in p2] for k, v in obs.items()})
+        arg = [ds, ds2]
+    r = calc_rdm_unbalanced(arg, method=c['method'], descriptor='cond', noise=noise,
                             cv_descriptor='fold' if c['folds'] is not None else None,
                             prior_lambda=c['pl'], prior_weight=c['pw'], weighting=c['weighting'])
     if not np.array_equal(before, ds.measurements, equal_nan=True):
@@ -128,6 +143,9 @@ def run(c):
     inv = {lab_value(c, l): l for l in range(4)}
     out = dict(vals=[None if math.isnan(x) else float(x) for x in r.dissimilarities[0]],
                labs=[inv[core._k(x)] for x in r.pattern_descriptors['cond']])
+    if c.get('perm2'):
+        out['second'] = [None if math.isnan(x) else float(x) for x in r.dissimilarities[1]] if r.n_rdm > 1 else 'missing'
+
     # where theory says it must coincide with calc_rdm
     if c['nan_kind'] == 'none' and c['weighting'] == 'number':
         cnt = [c['conds'].count(l) for l in set(c['conds'])]
@@ -257,6 +275,12 @@ def oracle(c, o):
     if 'error' in o:
         return f"implementation raised {o['error']}: {o.get('msg')}"
     labs, vals = spec_rdm(c)
+    if 'second' in o:
+        a = np.array([np.nan if v is None else v for v in o['vals']], float)
+        b = np.array([np.nan if v is None else v for v in o['second']], float) if o['second'] != 'missing' else None
+        if b is None or a.shape != b.shape or not np.allclose(a, b, rtol=1e-9, atol=1e-12, equal_nan=True):
+            return (f"list of two datasets holding the same observations in different order: the second RDM {o['second']} is not the "
+                    f"first one {o['vals']} under the returned condition labels {o['labs']}")
     if not c['one'] and o['labs'] != labs:
         return f"condition labels {o['labs']} are not in order of first appearance {labs}"
     got = np.array([np.nan if v is None else v for v in o['vals']], float)
